@@ -9,6 +9,27 @@ VERIF = os.path.dirname(HERE)
 
 # property -> (technique, level text, level note, design ref); only properties with a working check
 CLAIMED = {
+    "C16": (
+        "TLC: outline semantics on integer vertex ids (boundary edge set = disjoint simple cycles, one polygon per component of the spec's neighbour graph; Euler relation on the whole res-0 sphere) + allocator contract; TLC trace validation of cellsToLinkedMultiPolygon / destroy executions with every allocation logged",
+        "H3LinkedGeo.tla defines the outline of a cell set combinatorially: with coordinates clustered to vertex ids, the "
+        "directed cell edges whose reverse is no cell edge form the boundary, a disjoint union of simple cycles; components "
+        "come from the neighbour graph N. MC_LinkedGeo checks on the model's own res-0 sphere (corners = triangles of the "
+        "graph) that every corner meets 0 or 2 boundary edges, #cycles = comps(S) + comps(complement) - 1 and each cycle "
+        "belongs to one component, for all sets of <= 4 (6) cells of a pentagon's 2-disk and <= 3 of a hexagon's. Every "
+        "recorded call (Trace_LMP.tla) must return exactly those cycles: loops simple, >= 3 vertices, all boundary vertices "
+        "of input cells, every loop edge a boundary edge, no edge twice, all boundary edges covered; #polygons = #components; "
+        "all loops of a polygon owned by cells of one component, distinct polygons distinct components; first loop "
+        "counter-clockwise, others clockwise; per polygon the signed loop areas sum to the area of its component's cells "
+        "(integers, 1e-4 of a mean cell). The library runs on the allocator seam: a successful call may retain blocks, "
+        "destroyLinkedMultiPolygon must free all of them, an error return (H3_NULL / invalid cell inside the set, all base "
+        "cells minus two) must leave none, no double or foreign free. Inputs: 420 (6000) sets at res 0-15: disks, disks "
+        "minus random cells, rings, islands in holes, nested rings with extra components, sparse sets, sub-trees, paths; "
+        "around pentagons, on the antimeridian and icosahedron edges; shuffled.",
+        "Vertex ids (1e-12 rad clustering, C08), orientation signs and areas are numeric projections of the harness (long "
+        "double); sets reaching beyond 83 degrees of latitude or 1 rad of their mean direction are outside the property's "
+        "domain and judged on the allocator contract only. Allocation *failure* inside these functions is not part of C16 "
+        "(they assert). Found and fixed: vertex hash separated coinciding vertices at coarse resolutions (known_findings.json).",
+        "DESIGN.md 3.9, 5/C16, 11"),
     "C07": (
         "TLC: set-level semantics of centre containment (H3Polygon.tla) + TLC trace validation of both fill algorithms against independent three-valued point-in-polygon observations, candidate set closed under the spec's neighbour graph",
         "H3Polygon.tla states what a centre-containment fill is in terms of sets of cells and per-cell observations; MC_Polygon "
